@@ -21,6 +21,9 @@ func genC13(seed uint64, tier string) *Plan {
 	r := NewRng(seed, 13)
 	u := genUniverse(r)
 	u.NoConst = true
+	if r.Bool(0.04) {
+		return genC13FollowerMemory(r, u, seed)
+	}
 	p := &Plan{Prop: "C13", Seed: seed, World: "CL+S+W"}
 	p.Cfg.Partitions = PickOne(r, []int{1, 2, 3, 3, 4})
 	p.Cfg.Leaders = 1
@@ -126,6 +129,7 @@ func c13Memory(e *Env, p *Plan, op *Op) *Violation {
 	defer m.Abandon()
 	t := &p.Tables[0]
 	now := time.Now()
+	before := map[string]int64{t.Name: processedPoints(m, t.Name)}
 	for i := 0; i < int(op.N); i++ {
 		dims := map[string]interface{}{"da": fmt.Sprintf("k%05d", i), "db": i % 7, "dc": i%2 == 0}
 		vals := map[string]interface{}{"x": float64(i%13) + 1, "y": float64(i % 5), "z": 1.5, "w": 2.0}
@@ -133,8 +137,8 @@ func c13Memory(e *Env, p *Plan, op *Op) *Violation {
 			return &Violation{"harness", err.Error()}
 		}
 	}
+	waitTables(e, m, before, op.N)
 	e.Settle()
-	e.Sleep(2 * time.Second)
 	if op.B {
 		m.DB.FlushAll()
 		e.Sleep(time.Millisecond)
@@ -168,7 +172,126 @@ func c13Memory(e *Env, p *Plan, op *Op) *Violation {
 	return nil
 }
 
+// genC13FollowerMemory: a plan in world CR in which one follower runs over
+// its memory limit while it answers (the error reaches the leader through the
+// real RPC stack, together with the end of the results).
+func genC13FollowerMemory(r *Rng, u *Universe, seed uint64) *Plan {
+	p := &Plan{Prop: "C13", Seed: seed, World: "CR"}
+	p.Cfg.Partitions = 2
+	p.Cfg.Leaders = 1
+	p.Cfg.FollowersPerPart = 1
+	p.Cfg.CoalesceNanos = int64(time.Millisecond)
+	p.Cfg.MaxMemoryRatio = 0.5
+	p.Cfg.Extra = map[string]int64{"clusterQueryTimeout": int64(20 * time.Second), "real": 1}
+	p.Tables = genSchema(r, u, SchemaOpts{MaxTables: 1, RetMin: time.Hour, RetMax: 4 * time.Hour})
+	t := &p.Tables[0]
+	// the key must keep da (the bulk keys differ in it), partitioned by da
+	t.GroupBy = nil
+	t.PartitionBy = []string{"da"}
+	t.Where = nil
+	o := QGenOpts{Group: true, Where: true, Order: true, NoConst: true, NoPeriod: true}
+	op := Op{K: "rmem", N: int64(r.Range(2200, 3000)), N2: int64(r.Intn(2))}
+	for i := 0; i < 3; i++ {
+		op.Strs = append(op.Strs, genQuery(r, t, u, o).SQL())
+	}
+	op.Strs = append(op.Strs, "SELECT * FROM "+t.Name, "SELECT _points FROM "+t.Name+" GROUP BY db", "SELECT _points FROM "+t.Name+" GROUP BY _")
+	p.Ops = append(p.Ops, Op{K: "adv", Dt: int64(37 * time.Second)}, op)
+	return p
+}
+
+func execC13FollowerMemory(e *Env, p *Plan) error {
+	c, err := NewCluster(e, p)
+	if err != nil {
+		return err
+	}
+	var op *Op
+	for i := range p.Ops {
+		stepDt(e, &p.Ops[i])
+		if p.Ops[i].K == "rmem" {
+			op = &p.Ops[i]
+		}
+	}
+	if op == nil {
+		return nil
+	}
+	t := &p.Tables[0]
+	l := c.Leaders[0]
+	now := time.Now()
+	before := map[string]map[string]int64{}
+	for _, f := range c.Followers {
+		before[f.Name] = map[string]int64{t.Name: processedPoints(f.N, t.Name)}
+	}
+	for i := 0; i < int(op.N); i++ {
+		dims := map[string]interface{}{"da": fmt.Sprintf("k%05d", i), "db": i % 7, "dc": i%2 == 0}
+		vals := map[string]interface{}{"x": float64(i%13) + 1, "y": float64(i % 5), "z": 1.5, "w": 2.0}
+		if err := l.N.DB.Insert(t.Stream, now.Add(-time.Duration(i%20)*time.Second), dims, vals); err != nil {
+			return err
+		}
+	}
+	// every follower sees every entry (and keeps its partition's share)
+	for i := 0; i < 600; i++ {
+		done := true
+		for _, f := range c.Followers {
+			if processedPoints(f.N, t.Name)-before[f.Name][t.Name] < op.N {
+				done = false
+			}
+		}
+		if done {
+			break
+		}
+		e.Sleep(500 * time.Millisecond)
+	}
+	e.Settle()
+	if v := waitForQueryFeeds(e, c, p, time.Now().Add(5*time.Minute)); v != nil {
+		return v
+	}
+	victim := c.Followers[int(op.N2)%len(c.Followers)]
+	rows, _ := dumpPoints(victim.N, t.Name)
+	if len(rows) < 1000 {
+		// the limit is looked at every 1000th row: this partition is too small
+		e.Count("skipped.partition-below-1000-rows")
+		c.CloseAll()
+		return nil
+	}
+	for _, sql := range op.Strs {
+		alignClock(e, int64(time.Millisecond), int64(time.Minute))
+		pf, pq := l.N.Prepare(sql, true), l.N.Prepare(sql, true)
+		full := pf.Run(QOpts{})
+		if full.Err != nil || full.Panicked || (full.Stats != nil && full.Stats.NumSuccessfulPartitions != full.Stats.NumPartitions) {
+			e.Count("q.error")
+			continue
+		}
+		e.Sleep(3 * time.Second)
+		e.SetMemory(victim.N, 1<<62)
+		time.Sleep(3 * time.Second) // the memory reading is refreshed every 2 s
+		q := pq.Run(QOpts{})
+		e.SetMemory(victim.N, 0)
+		time.Sleep(3 * time.Second)
+		if q.Panicked {
+			return &Violation{"panic-in-cluster-query", fmt.Sprintf("%q with follower %s over its memory limit: %v", sql, victim.Name, q.Err)}
+		}
+		told := q.Err != nil || (q.Stats != nil && q.Stats.NumSuccessfulPartitions < q.Stats.NumPartitions)
+		e.Logf("rmem %q rows=%d/%d told=%v", sql, len(q.Rows), len(full.Rows), told)
+		if told {
+			e.Count("probe.rmem-told")
+			continue
+		}
+		if ok, diff := sameRows(full, q); !ok {
+			return &Violation{"follower-memory-limit-not-reported", fmt.Sprintf("%q while follower %s (partition %d, %d rows) is over its memory limit: no error, statistics %+v claim every partition answered, but the result differs from the one without pressure: %s", sql, victim.Name, victim.Partition, len(rows), q.Stats, diff)}
+		}
+		e.Count("probe.rmem-complete")
+	}
+	e.Count("nontrivial")
+	c.CloseAll()
+	return nil
+}
+
 func execC13(e *Env, p *Plan) error {
+	for i := range p.Ops {
+		if p.Ops[i].K == "rmem" {
+			return execC13FollowerMemory(e, p)
+		}
+	}
 	c, err := NewCluster(e, p)
 	if err != nil {
 		return err
@@ -211,8 +334,10 @@ func execC13(e *Env, p *Plan) error {
 			}
 			e.Sleep(3 * time.Second)
 			for _, f := range op.Sub {
-				if f.K == "hang" {
-					// a hung handler comes back a minute after it was called
+				if f.K == "hang" || f.K == "slow-late" {
+					// a hung handler comes back a minute after it was called, a
+					// slow one after 30 s (the harness keeps only two handlers per
+					// follower registered)
 					e.Sleep(time.Minute)
 					break
 				}
